@@ -131,10 +131,10 @@ def zoo_comp(rng, hdr, i, pool=None):
     return c.replace("{i}", str(i)).replace("{h}", str(h)).replace("{g}", str(g))
 
 
-def gen_member(rng, hdr, nlines, ident, *, max_comps=5, modes=None, zoo_p=0.0, zoo_pool=None):
+def gen_member(rng, hdr, nlines, ident, *, max_comps=5, modes=None, zoo_p=0.0, zoo_pool=None, zoo_n=(1, 3)):
     comps = [comp(rng, hdr, nlines, i) for i in range(rng.randint(1, max_comps))]
     if zoo_p and rng.random() < zoo_p:
-        for z in range(rng.randint(1, 3)):
+        for z in range(rng.randint(*zoo_n)):
             comps.insert(rng.randint(0, len(comps)), zoo_comp(rng, hdr, 20 + z, zoo_pool))
     m = {"id": ident, "scan": scan(rng, nlines), "comps": comps}
     if modes:
